@@ -37,6 +37,14 @@ def is_step_vector(t, memo):
 
 
 def iter_over_steps(it, memo):
+    if it.op == "map" and it.a[0].op == "iter" and it.a[0].a[0].op == "adt" and it.a[0].a[0].a[0] == "Range" \
+            and isinstance(it.a[1], tm.T) and it.a[1].op == "lam":
+        # (0..n).map(|i| .. v[i] ..) with v a per-step vector: a comprehension along the step axis
+        for x in tm.subterms(it.a[1]):
+            if x.op == "index" and len(x.a) > 1 and isinstance(x.a[1], tm.T) and x.a[1].op == "bv" \
+                    and isinstance(x.a[0], tm.T) and is_step_vector(x.a[0], memo):
+                return True
+        return False
     if it.op == "iter":
         return is_step_vector(it.a[0], memo)
     if it.op in ("map", "filter", "filter_map", "rev", "enumerate", "skip", "take", "take_while", "skip_while",
@@ -73,6 +81,9 @@ def run(ctx, rep):
                 if target is None:
                     continue
                 hit = is_step_vector(target, memo) or iter_over_steps(target, memo)
+                # v[i] with i the bound variable of a comprehension over the positions (0..n) is point-wise
+                if hit and t.op == "index" and len(t.a) > 1 and isinstance(t.a[1], tm.T) and t.a[1].op == "bv":
+                    continue
                 if hit:
                     seen_pos.setdefault(t.op, t)
         # a loop the evaluator could not put into a closed form (`foldgen`) and that runs along the step axis or
